@@ -388,5 +388,76 @@ theorem quiet_step (c c' : Chan) (k : Quiet) (o : Obs) (hs : step c (.quiet k) =
     exact ⟨rfl, rfl, by cases k <;> rfl⟩
   · simp at hs
 
+/-! ## two channels (`Pair`): every channel of a pair only makes `Chan` steps -/
+
+theorem run_snoc : ∀ (ops : List Op) (c c1 c2 : Chan) (os : List Obs) (op : Op) (o : Obs),
+    run c ops = some (c1, os) → step c1 op = some (c2, o) → run c (ops ++ [op]) = some (c2, os ++ [o]) := by
+  intro ops
+  induction ops with
+  | nil =>
+    intro c c1 c2 os op o hr hs
+    simp [run] at hr; obtain ⟨h1, h2⟩ := hr; subst h1; subst h2
+    simp [run, hs]
+  | cons op0 ops ih =>
+    intro c c1 c2 os op o hr hs
+    obtain ⟨c0, o0, os', hs0, hr', he⟩ := run_cons hr
+    subst he
+    have := ih c0 c1 c2 os' op o hr' hs
+    simp [run, hs0, this]
+
+theorem reach_step {c c' : Chan} {op : Op} {o : Obs} (h : Reach c) (hs : step c op = some (c', o)) : Reach c' := by
+  obtain ⟨ops, os, hr⟩ := h
+  exact ⟨ops ++ [op], os ++ [o], run_snoc ops init c c' os op o hr hs⟩
+
+theorem get_set_same (p : Pair) (s : Side) (c : Chan) : (p.set s c).get s = c := by
+  cases s <;> rfl
+
+theorem get_set_other (p : Pair) (s t : Side) (c : Chan) (h : t ≠ s) : (p.set s c).get t = p.get t := by
+  cases s <;> cases t <;> first | rfl | exact absurd rfl h
+
+theorem dropSender_senders {c c' : Chan} {i : Nat} {o : Obs} (hs : step c (.dropSender i) = some (c', o)) :
+    i ∈ c.senders ∧ c'.senders = c.senders.erase i := by
+  simp only [step] at hs
+  by_cases hi : i ∈ c.senders
+  · rw [if_pos hi] at hs
+    refine ⟨hi, ?_⟩
+    split at hs <;> (simp only [Option.some.injEq, Prod.mk.injEq] at hs; obtain ⟨h, _⟩ := hs; subst h; rfl)
+  · rw [if_neg hi] at hs; simp at hs
+
+/-- both channels of a pair only ever make `Chan` steps -/
+theorem pair_step_reach (p p' : Pair) (op : POp) (os : List Obs) (hs : Pair.step p op = some (p', os))
+    (h : ∀ s, Reach (p.get s)) : ∀ s, Reach (p'.get s) := by
+  cases op with
+  | on s0 op =>
+    simp only [Pair.step] at hs
+    split at hs
+    · simp at hs
+    · rename_i c' o hst
+      simp only [Option.some.injEq, Prod.mk.injEq] at hs; obtain ⟨hp, _⟩ := hs; subst hp
+      intro s
+      by_cases hss : s = s0
+      · subst hss; rw [get_set_same]; exact reach_step (h s) hst
+      · rw [get_set_other _ _ _ _ hss]; exact h s
+  | cloneFrom si i sj j =>
+    simp only [Pair.step] at hs
+    split at hs
+    · simp at hs
+    · split at hs
+      · simp at hs
+      · rename_i c1 o1 hd
+        split at hs
+        · simp at hs
+        · rename_i c2 o2 hc
+          simp only [Option.some.injEq, Prod.mk.injEq] at hs; obtain ⟨hp, _⟩ := hs; subst hp
+          have h1 : ∀ s, Reach ((p.set si c1).get s) := by
+            intro s
+            by_cases hss : s = si
+            · subst hss; rw [get_set_same]; exact reach_step (h s) hd
+            · rw [get_set_other _ _ _ _ hss]; exact h s
+          intro s
+          by_cases hss : s = sj
+          · subst hss; rw [get_set_same]; exact reach_step (h1 s) hc
+          · rw [get_set_other _ _ _ _ hss]; exact h1 s
+
 end Chan
 end ActixNet
